@@ -12,6 +12,5 @@ CONSTANTS Tx = {"t1", "t2", "t3", "t4"}
           EmitOn = FALSE
           Strict = FALSE
 CONSTRAINT HighWater
-INVARIANT PropC37
 POSTCONDITION Accepted
 CHECK_DEADLOCK FALSE
